@@ -574,7 +574,7 @@ def random_rotations(rep, shells, npairs, nf, rng):
 def cache_tolerance(rep, shells, rng):
     """numeric only: composition law for rotations that nearly coincide, asked of ONE rotator instance (as Dwann does for the
     operations and local bases of one projection).  D(A) D(B) must equal D(AB) to 1e-9 also when AB differs from A by only
-    5e-5 .. 5e-6 (deciding case for the cache tolerance of the rotator: 1e-4 before repair 94903986, 1e-8 since)"""
+    5e-5 .. 5e-7 (deciding case for the cache tolerance of the rotator: 1e-4 before repair 94903986, 1e-8 since)"""
     nprs = np.random.RandomState(rng.randrange(2**31))
 
     def rz(t):
@@ -583,7 +583,7 @@ def cache_tolerance(rep, shells, rng):
     worst = 0.0
     ncase = 0
     for sh in [x for x in ("p", "d") if x in shells]:
-        for eps in (5e-5, 2e-5, 5e-6):
+        for eps in (5e-5, 2e-5, 5e-6, 5e-7):
             t = float(nprs.uniform(0.2, 1.2))
             A, B = rz(t), rz(eps)
             rot = new_rotator()
